@@ -77,6 +77,14 @@ def u_value_from(ip):
     state = {"beta_value": PyObj("ns", value=z3.Const("state_beta", U)), "K_node": PyObj("ns", value=z3.Const("state_K", U)), "beta": PyObj("ns", value=z3.Const("wrong", U))}
     c.oblige("var_member_reads_value_node_entry", ip.call(method(ip, grp, "value_from"), [state, "beta"], {}).eq(z3.Const("state_beta", U)))
     c.oblige("node_member_reads_own_entry", ip.call(method(ip, grp, "value_from"), [state, "K"], {}).eq(z3.Const("state_K", U)))
+    # a SECOND group with the same member names for other variables (a second smooth): each group reads its own members, in any order of use
+    v2 = g.var("beta2")
+    nd2 = ip.call(g.Value, [z3.Const("val_K2", U)], {"_name": "K2_node"})
+    grp2 = ip.call(ip.repo(f"{N}::Group"), ["grp2"], {"beta": v2, "K": nd2})
+    state.update({"beta2_value": PyObj("ns", value=z3.Const("state_beta2", U)), "K2_node": PyObj("ns", value=z3.Const("state_K2", U))})
+    c.oblige("second_group_reads_its_own_members", ip.call(method(ip, grp2, "value_from"), [state, "beta"], {}).eq(z3.Const("state_beta2", U))
+             and ip.call(method(ip, grp2, "value_from"), [state, "K"], {}).eq(z3.Const("state_K2", U)))
+    c.oblige("first_group_still_reads_its_own_members", ip.call(method(ip, grp, "value_from"), [state, "beta"], {}).eq(z3.Const("state_beta", U)))
 
 
 @unit("C13.tau2_conditional_identity", "C13", [f"{MVN}::MultivariateNormalDegenerate.from_penalty", f"{MVN}::MultivariateNormalDegenerate._log_prob"],
@@ -191,3 +199,9 @@ def u_finite_discrete(ip):
 from contracts.c09 import frame_unit  # noqa: E402
 
 frame_unit("Gibbs", uid="C13.gibbs_wrapper_passes_the_draw_through", prop="C13")
+
+
+# the caching protocol this property's statement rests on (values and densities "after updating")
+from contracts.c01 import register_cache_core  # noqa: E402
+
+register_cache_core("C13")
